@@ -79,8 +79,20 @@ def _r1(ctx, f, blk, reg):
                 continue
             def is_reg_uops(e):
                 """the register form's micro-op container, directly or through a local that holds it / one option of it"""
-                if U(e) == "%s.port_pressure" % reg:
+                src0 = "%s.port_pressure" % reg
+                opts = ["%s[M_k]", "list(%s.values())[M_k]", "next(iter(%s.values()))"]
+                if U(e) == src0:
                     return True
+                if isinstance(e, ast.IfExp):
+                    # <one option> if isinstance(<container>, dict) else <container>   (or the inverted form)
+                    t = e.test
+                    neg = isinstance(t, ast.UnaryOp) and isinstance(t.op, ast.Not)
+                    t = t.operand if neg else t
+                    sel, plain = (e.orelse, e.body) if neg else (e.body, e.orelse)
+                    if pm.match("isinstance(%s, dict)" % src0, t) is not None and U(plain) == src0 and any(
+                            pm.match(p_ % src0, sel) is not None for p_ in opts):
+                        return True
+                    return False
                 if not isinstance(e, ast.Name):
                     return False
                 defs = [d for d in C.assigns_to(f.node, e.id) if isinstance(d, ast.Assign)]
@@ -170,8 +182,14 @@ def _r1(ctx, f, blk, reg):
         need("store micro-ops come from get_store_throughput(memory destination operand, register type)",
              bool(g) and "MemoryOperand" in U(g[0][1]["M_m"]), s)
         if duops and duops.isidentifier():
-            cat = pm.find_any(["%s = %s + M_s" % (duops, duops), "%s += M_s" % duops, "%s.extend(M_s)" % duops], s)
-            need("store micro-ops are appended to the data micro-ops", len(cat) == 1, s)
+            cat = pm.find_any(["%s = %s + M_s" % (duops, duops), "%s += M_s" % duops, "%s.extend(M_s)" % duops,
+                               "%s = [*%s, *M_s]" % (duops, duops), "%s = list(chain(%s, M_s))" % (duops, duops),
+                               "%s = list(%s) + list(M_s)" % (duops, duops)], s)
+            other_def = [a_ for a_ in ast.walk(s) if isinstance(a_, (ast.Assign, ast.AugAssign)) and U(
+                a_.targets[0] if isinstance(a_, ast.Assign) else a_.target) == duops]
+            ctx.judge(len(cat) == 1, len(cat) == 1 or not other_def, "R1", "store micro-ops are appended to the data micro-ops", f.where(s),
+                      "composition provenance broken: store micro-ops are appended to the data micro-ops", f.qname,
+                      "store micro-ops are appended to the data micro-ops")
         mul = [n for n in ast.walk(s) if isinstance(n, ast.If) and U(n.test) == "'store_throughput_multiplier' in self._machine_model"]
         need("store pressure is scaled only by the model's store_throughput_multiplier[register type]", len(mul) == 1, s)
 
